@@ -24,7 +24,7 @@ from feems.fuel import Fuel, FuelSpecifiedBy, TypeFuel, FuelOrigin
 from feems.types_for_feems import EmissionType
 
 THEOREMS = ["engine", "pilot", "zero", "nonneg", "constant_curve", "genset", "geared", "fuel_cell", "modules_linear", "modules",
-            "geared_legacy_wrong_load", "cogas_point", "legacy_cogas_gas_is_ratio", "running_hours_cons", "running_hours_idle", "running_hours_always"]
+            "geared_legacy_wrong_load", "cogas_point", "cogas_follows_split_curves", "legacy_share_off_curve", "legacy_cogas_gas_is_ratio", "running_hours_cons", "running_hours_idle", "running_hours_always"]
 DEPENDS_ON_MODULES = ["FeemsProofs.C06"]
 
 
@@ -336,6 +336,11 @@ def run_case(ctx, case, model=True):
                     return raw_eta(cg, key)[0]
                 if name == "ratio":
                     return float(cg.power_ratio_gas_turbine_interpolator(x))
+                if name in ("gt", "st"):
+                    # the GIVEN curve, interpolated here from the case's own points (PCHIP, as FEEMS interpolates every curve)
+                    from scipy.interpolate import PchipInterpolator
+                    pts = np.array(sorted(cs["gt_curve" if name == "gt" else "st_curve"]), dtype=float)
+                    return float(PchipInterpolator(pts[:, 0], pts[:, 1])(x)) if len(pts) > 1 else float(pts[0, 1])
                 if name == "eta_gen":
                     return raw_eta(obj.generator, key)[0]
                 if name == "inv_gen":
